@@ -38,6 +38,30 @@ func (x *Exec) finish(st *State, res []Val) {
 	for _, c := range x.spec.Ensures {
 		x.oblige(st, "ensures:"+c.Label, "ensures", c.Src, x.evalBool(env, c.E))
 	}
+	if len(x.spec.ExitAssert) > 0 {
+		lenv := *env
+		lenv.frame = st.fr // locals of the function are visible; a clause naming a local not yet defined on this path is vacuous here
+		for _, c := range x.spec.ExitAssert {
+			g, ok := x.tryEvalBool(&lenv, c.E)
+			if !ok {
+				g = "true"
+			}
+			x.oblige(st, "exit:"+c.Label, "ensures", c.Src, g)
+		}
+	}
+}
+
+func (x *Exec) tryEvalBool(env *Env, e Expr) (t string, ok bool) {
+	defer func() {
+		if r := recover(); r != nil {
+			if se, isSpec := r.(specErr); isSpec && strings.Contains(se.msg, "unknown name") {
+				t, ok = "", false
+				return
+			}
+			panic(r)
+		}
+	}()
+	return x.evalBool(env, e), true
 }
 
 // FuncResult is the outcome of generating the obligations of one function.
